@@ -699,4 +699,82 @@ def Binder.run (b : Binder) : List (List Field × Req) → List Outcome
   | [] => []
   | (t, r) :: rest => (b.bind t r).1 :: Binder.run (b.bind t r).2 rest
 
+/-! ### the entry points of `defaultBinder` and its five decoder caches
+
+`Bind` / `BindAndValidate` call `bindTag` / `bindTagWithValidate` with `tag = ""`; `BindPath`, `BindForm`,
+`BindQuery`, `BindHeader` call `bindTag` with their tag.  A non-empty tag (i) skips `preBindBody`,
+(ii) makes `getFieldDecoder` replace the tag list of every field by `getFieldTagInfoByTag(field, tag)`,
+(iii) selects another decoder cache (`tagCache`).  All caches are keyed by the type alone, so which cache
+a decoder is loaded from and stored into is part of the behaviour. -/
+
+inductive Api | bind | validate | path | form | query | header
+  deriving DecidableEq, Repr
+
+/-- the `tag` argument the entry point passes on (`none` = the empty string) -/
+def Api.byTag : Api → Option Src
+  | .bind => none | .validate => none
+  | .path => some .path | .form => some .form | .query => some .query | .header => some .header
+
+/-- the five `sync.Map`s of `defaultBinder` -/
+inductive Slot | all | query | header | form | path
+  deriving DecidableEq, Repr
+
+/-- `defaultBinder.tagCache` -/
+def tagCache : Option Src → Slot
+  | some .query => .query | some .header => .header | some .form => .form | some .path => .path
+  | _ => .all
+
+/-- `getFieldTagInfoByTag`: exactly one tag, named by the struct tag of that source if the field has one
+(empty name = Go name, `-` = skipped, option `required`), else by the Go name; no default, no JSON name -/
+def tagInfoByTag (f : Field) (s : Src) : List TagInfo :=
+  match f.tags.lookup s with
+  | some content =>
+    let hv := headComma content
+    let tv := if hv.1 = [] then f.name else hv.1
+    [{ key := s, value := tv, jsonName := [], required := optsRequired [] hv.2, skip := tv == dash }]
+  | none => [{ key := s, value := f.name, jsonName := [] }]
+
+/-- `getFieldDecoder(…, byTag, …)` for one top-level field -/
+def compileFieldBy (tg : Option Src) (f : Field) : FieldDec :=
+  match tg with
+  | none => compileField f
+  | some s => { ty := f.ty, tis := tagInfoByTag f s }
+
+/-- `GetReqDecoder(rt, byTag, config)` -/
+def compileBy (tg : Option Src) (fields : List Field) : List FieldDec := fields.map (compileFieldBy tg)
+
+/-- `bindTag` once the decoder `decs` is in hand: `preBindBody` only when `len(tag) == 0`; a tag-restricted
+bind runs the decoders on the untouched fresh value -/
+def bindWithBy (tg : Option Src) (decs : List FieldDec) (fields : List Field) (r : Req) : Outcome :=
+  match tg with
+  | none => bindWith decs fields r
+  | some _ => runDecoders r decs (fields.map (fun _ => .unset))
+
+/-- **An entry point as a function of the type description and the request** (no cache) -/
+def bindBy (tg : Option Src) (fields : List Field) (r : Req) : Outcome :=
+  bindWithBy tg (compileBy tg fields) fields r
+
+/-- `defaultBinder`: one cache per `Slot`, each type → compiled decoders -/
+structure TagBinder where
+  caches : Slot → List (List Field × List FieldDec) := fun _ => []
+
+/-- `cache.Store(typeID, …)` on the cache `s` -/
+def TagBinder.store (b : TagBinder) (s : Slot) (t : List Field) (d : List FieldDec) : TagBinder :=
+  { caches := fun s' => if s' = s then (t, d) :: b.caches s' else b.caches s' }
+
+/-- `bindTag` (and `bindTagWithValidate` for types without a validation tag: `needValidate` is false):
+`cache := b.tagCache(tag)`; load → fast path; else build with `byTag = tag`, store into THE SAME cache, run -/
+def TagBinder.bindTag (b : TagBinder) (tg : Option Src) (fields : List Field) (r : Req) : Outcome × TagBinder :=
+  match (b.caches (tagCache tg)).lookup fields with
+  | some decs => (bindWithBy tg decs fields r, b)
+  | none => (bindWithBy tg (compileBy tg fields) fields r, b.store (tagCache tg) fields (compileBy tg fields))
+
+def TagBinder.call (b : TagBinder) (a : Api) (fields : List Field) (r : Req) : Outcome × TagBinder :=
+  b.bindTag a.byTag fields r
+
+/-- a sequence of calls of any entry points through one binder -/
+def TagBinder.run (b : TagBinder) : List (Api × List Field × Req) → List Outcome
+  | [] => []
+  | (a, t, r) :: rest => (b.call a t r).1 :: TagBinder.run (b.call a t r).2 rest
+
 end Hertz.Bind
